@@ -146,6 +146,10 @@ func vndFloat32bits(f float32) uint32 { return math.Float32bits(f) }
 // vndConcretize returns x; the symbolic executor forks over the feasible values of x so that the result is concrete.
 func vndConcretize(x int) int { return x }
 
+// vndSettle gives goroutines started by the code under test time to finish (the symbolic executor runs a goroutine
+// to completion at its spawn point, so there is nothing to wait for).
+func vndSettle() { time.Sleep(30 * time.Millisecond) }
+
 // vndAdvanceTime lets time pass beyond every pending timeout (symbolically: every time.After channel is ready).
 func vndAdvanceTime() { time.Sleep(150 * time.Millisecond) }
 
@@ -254,6 +258,8 @@ func (x *Exec) vnd(name string, args []Value) Value {
 		return stubFloat64bits(x, nil, args, nil)
 	case "vndFloat32bits":
 		return args[0]
+	case "vndSettle":
+		return nil
 	case "vndConcretize":
 		return x.i64(int(x.concretize(args[0].(*term.Term), "vndConcretize")))
 	case "vndAdvanceTime":
